@@ -293,3 +293,9 @@ func MatchGoRegex(s string, pattern string) bool {
 	}
 	return m
 }
+
+// AwaitQuiescence blocks until no other goroutine can run and no timer is pending.
+func AwaitQuiescence() { time.Sleep(200 * time.Millisecond) }
+
+// Go starts a harness (system) goroutine: it is not counted by LiveGoroutines.
+func Go(f func()) { go f() }
